@@ -11,6 +11,7 @@ CONSTANTS
   DEV_DeferredRemoveKeepsPolygon = FALSE
   DEV_ForkSharesLanelets = FALSE
   ForkAll = FALSE
+  DEV_DrawMovesVertices = FALSE
   DEV_DiscHalfRadius = FALSE
 INVARIANT TypeOK
 INVARIANT IndexMirrors
